@@ -225,7 +225,7 @@ def run_sequences(bounded, tier, seed):
             if msg:
                 return msg
         return None
-    for cls in cls_list[:2] if tier == "quick" else cls_list:
+    for cls in cls_list:
         for n in range(1, depth + 1):
             for seq in itertools.product(ops, repeat=n):
                 cases += 1
@@ -244,8 +244,61 @@ def run_sequences(bounded, tier, seed):
         msg = run_seq(cls, seq)
         if msg and len(fails) < 20:
             fails.setdefault(msg.split(" ")[0][:24] + cls.__name__, {"witness": {"class": cls.__name__, "ops": repr(seq)}, "detail": msg})
+    cf, cn = canon_enum()
+    cases += cn
+    for f in cf:
+        fails.setdefault("canon" + str(len(fails)), f)
     bounded.cases = cases
     bounded.nontrivial = len(distinct)
     bounded.failures = list(fails.values())
     bounded.samples = [repr(ops[3]), repr(ops[40]), repr(ops[-3])]
     return bounded
+
+
+# ---------------------------------------------------------------------------------------------------
+# canonical ordering: the real canonsort_keys against the statement, exhaustively over small inputs
+
+def canon_check(keys, order):
+    from icalendar.caselessdict import canonsort_keys
+    want = sorted((k for k in keys if k in (order or ())), key=list(order or ()).index) + sorted(k for k in keys if k not in (order or ()))
+    try:
+        got = canonsort_keys(list(keys), order)
+    except Exception as e:  # noqa
+        return f"canonsort_keys({list(keys)!r}, {order!r}) raises {type(e).__name__}: {e}"
+    if list(got) != want:
+        return f"canonsort_keys({list(keys)!r}, {order!r}) = {list(got)!r}, expected {want!r} (priority names in declared order, then the others alphabetically)"
+    return None
+
+
+def canon_enum(limit_fail=3):
+    """all orders of <= 4 distinct names out of 6 (and None), all key lists of <= 3 distinct names out of 8: 518 x 401 calls"""
+    names = ["A", "B", "C", "D", "E", "F"]
+    pool = ["A", "C", "F", "X-A", "a", "Z", "B", ""]
+    fails, n = [], 0
+    orders = [None] + [tuple(p) for r in range(0, 5) for p in itertools.permutations(names, r)]
+    keysets = [tuple(p) for r in range(0, 4) for p in itertools.permutations(pool, r)]
+    for order in orders:
+        for keys in keysets:
+            n += 1
+            msg = canon_check(keys, order)
+            if msg and len(fails) < limit_fail:
+                fails.append({"witness": {"canon": True, "keys": list(keys), "order": None if order is None else list(order)}, "detail": msg})
+    # the classes' own declared orders with few keys (a priority name declared late, next to other names)
+    from icalendar import cal, prop
+    for cls in (cal.Calendar, cal.Event, cal.Todo, cal.Timezone, cal.Alarm, prop.vRecur):
+        co = getattr(cls, "canonical_order", None) or ()
+        for r in (1, 2):
+            for prio in itertools.combinations(co, r):
+                for other in ((), ("X-OTHER",), ("AAA", "X-OTHER")):
+                    keys = list(other) + list(reversed(prio))
+                    n += 1
+                    obj = cls()
+                    for k in list(obj.keys()):
+                        del obj[k]
+                    for k in keys:
+                        obj[k] = []
+                    want = sorted(prio, key=co.index) + sorted(other)
+                    got = obj.sorted_keys()
+                    if got != want and len(fails) < limit_fail + 2:
+                        fails.append({"witness": {"canon": True, "class": cls.__name__, "keys": keys}, "detail": f"{cls.__name__} with keys {keys!r}: sorted_keys() = {got!r}, expected {want!r}"})
+    return fails, n
